@@ -63,7 +63,7 @@ func zzDocs(alpha []string, maxLen int) []string {
 func TestVerifBounded(t *testing.T) {
 	maxLen := 3
 	if os.Getenv("VERIF_TIER") == "thorough" {
-		maxLen = 4
+		maxLen = 6
 	}
 	alpha := []string{"a", "\n", "\r", "é", "😀"}
 	texts := []string{"", "x", "\n", "😀y"}
